@@ -17,7 +17,8 @@ RULE = (
     "cells of the decision table version{1.0,1.1} x request Connection{absent,close,keep-alive} x method{GET,HEAD,POST} "
     "x status{200,204,304,1xx} x declared Content-Length{absent,exact,larger,smaller} x body shape{empty,one,several "
     "with empty chunks,write(),mixed} x return kind{list,tuple,generator,iterable with len,file_wrapper seekable / "
-    "non-seekable / small / large} x failure{none,before start_response,after it before output,after first output} x "
+    "non-seekable / small / large} x failure{none,before start_response,after it before output,after first output,"
+    "response replaced via exc_info before output} x "
     "send pattern{all,1 byte,blocked-then-all}, each followed by a probe request; plus sampled pipelines of depth 3. "
     "The wire must parse into one response per executed request with the program's status, headers and bytes, and "
     "persistence must be announced truthfully. distinct = cell (all coordinates)"
@@ -35,7 +36,7 @@ STATUSES = ["200 OK", "204 No Content", "304 Not Modified", "100 Continue"]
 CLMODES = ["absent", "exact", "larger", "smaller"]
 SHAPES = ["empty", "one", "several", "write", "mixed", "write-one"]
 RETS = ["list", "tuple", "gen", "iterlen", "fw_seek", "fw_noseek", "fw_seek_big", "fw_seek_pos"]
-FAILS = ["none", "before-sr", "after-sr", "after-output"]
+FAILS = ["none", "before-sr", "after-sr", "after-output", "replaced"]
 SENDS = ["all", "one", "blocked"]
 SEND_PATTERNS = {"all": (-1,), "one": (1,), "blocked": (0, 0, -1)}
 
@@ -100,6 +101,10 @@ def build_cell(cell):
         if ret in ("gen", "iterlen"):
             prog["sr"] = "next"
             return None  # start_response would run on first next; covered by after-sr
+    elif fail == "replaced":
+        # a first response (other status, other headers, another Content-Length) is replaced
+        # before any output; only the replacement may reach the wire
+        prog["first"] = {"status": "202 Accepted", "headers": [["X-First", "gone"]], "cl": 77}
     elif fail == "after-sr":
         prog["steps"] = [["raise", "after-sr"]] + steps
     elif fail == "after-output":
@@ -260,6 +265,8 @@ def judge_pipeline(acc, reqs, progs, send, lazy, case):
         for k, v in I["headers"]:
             if v.encode("latin-1") not in header_values(r, k.encode("latin-1")):
                 bad("app-header-missing", f"header {k}: {v} not on the wire: {r['headers']}")
+        if prog.get("first") and header_values(r, b"x-first"):
+            bad("replaced-response-header-on-wire", f"a header of the replaced first start_response call is on the wire: {r['headers']}")
         # ---- body
         delivered = I["delivered"]
         cl = I["cl"]
